@@ -120,7 +120,11 @@ func TestC14(t *testing.T) {
 		k := uint64(12 + rng.Intn(16))
 		to := uint64(6 + rng.Intn(int(k)-6))
 		f := storeh.Fail{Handler: rng.Intn(cfg.NH), Height: uint64(1 + rng.Intn(int(to)-1)), Panic: rng.Chance(30)}
-		term, d := storeh.RunPar(t, rng, cfg, k, to, f)
+		fs := []storeh.Fail{f}
+		if rng.Bool() { // a second failing height, so that two workers fail in the same deletion
+			fs = append(fs, storeh.Fail{Handler: rng.Intn(cfg.NH), Height: uint64(1 + rng.Intn(int(to)-1)), Panic: rng.Chance(30)})
+		}
+		term, d := storeh.RunPar(t, rng, cfg, k, to, fs...)
 		w.Add(term, d, fmt.Sprint(d), true)
 		w.Count("side", "parallel-path")
 	}
